@@ -138,6 +138,7 @@ func Check17(c Case17, r *core.Rec) {
 		x = c.Web.RenderH(c.Spelling, 16, hostDepth, true, true)
 	}
 	r.Class("profile:" + c.Profile.Name)
+	interfereProfile(p, x)
 	u1, err := p.Parse(x)
 	if err != nil || u1 == nil {
 		if !c.UseRaw && !c.Web.hasEmptyName() {
@@ -151,6 +152,7 @@ func Check17(c Case17, r *core.Rec) {
 	if s1 != x && (strings.Contains(x, "%") || strings.Contains(x, "?")) {
 		r.NT()
 	}
+	interfereProfile(p, s1)
 	u2, err := p.Parse(s1)
 	if err != nil || u2 == nil {
 		if isA7(u1) {
